@@ -44,13 +44,13 @@ CHECKS = [
  core("C07", "6/C07", "TLC checks the session-end procedure (six ordered sub-steps) against the reference effect on the flat map, events of other subscribers and the frame condition; traces of the real core validated."),
  core("C04", "6/C04", "TLC evaluates for every pattern over {a,b,'',?,#} up to depth 3 (quick) / 4 (thorough), on a store holding every key up to that depth, that store collect (pget), store delete (pdelete) and the subscriber walk (notification) agree with the documented relation and reject illegal patterns; the real core answers the same exhaustive table and TLC validates the recorded trace."),
  core("C09", "6/C09", "A restart through the JSON persistence (flush, optional re-layout into the v2/v1 schemas in both toggle states, load with registrations applied) is an action of the core specification; TLC checks on the bounded universe that every user key keeps value, kind and version, nothing under $SYS survives and the registrations are applied; the real flush/load code performs the restarts of the replayed walks and random histories and TLC validates the traces."),
- core("C08", "6/C08", "TLC checks that no request of an ordinary client changes a protected $SYS key or makes a $SYS subscriber see a foreign value, over the product of request kinds and key/pattern shapes; traces of the real core validated."),
+ core("C08", "6/C08", "TLC checks that no request of an ordinary client changes a protected $SYS key or makes a $SYS subscriber see a foreign value, over the product of request kinds and key/pattern shapes; traces of the real core validated. A second configuration switches the server's extended monitoring on (model constant ExtMon): the bookkeeping requests for $SYS/subscriptions, the per-client subscription keys, $SYS/locks and the connection time are part of the specification, TLC checks the structural invariants and that $SYS/locks names exactly the holders, and edge replay plus random histories run against a real core with extended monitoring."),
 ]
 
 CHECKS.append(persist("C10", "6/C10", "TLC explores every interleaving of mutation, the file-system steps of a flush, a crash between any two of them and the steps of the load chain (which itself moves the slot selector) and checks that a start recovers the last completed or the in-progress snapshot with registrations of the same snapshot; the real code is crashed after every file-system step (single, double, in-load) and every recorded step and recovered generation is validated against the spec."))
 
 CHECKS += [
- session("C02", "6/C02", "TLC enumerates every interleaving of cget->cset cycles of 2-3 clients plus stale/future-version csets and plain sets on the contended key (one winner per version, no lost update, acceptance iff version matches via the reference layer); 2-4 unsynchronised real sessions run such cycles over the socket and TLC decides whether some atomic order of the requests explains every reply and the subscriber's event stream."),
+ session("C02", "6/C02", "TLC enumerates every interleaving of cget->cset cycles of 2-3 clients plus stale/future-version csets and plain sets on the contended key (one winner per version, no lost update, acceptance iff version matches via the reference layer); 2-4 unsynchronised real sessions run such cycles over the socket and TLC decides whether some atomic order of the requests explains every reply and the subscriber's event stream. Core histories around the largest version (imports put a key there; u64::MAX is mapped onto the top of the specification's integer range) are executed by the real core and validated against the core specification."),
  session("C13", "6/C13", "TLC checks on the session-layer model that every well-formed request on an established session gets exactly one terminal message of the kind the protocol assigns; real sessions send all message kinds of v0 and v1 with valid and invalid arguments, pipelined, 1-3 at a time; terminal messages are paired with requests by transaction id, their kind and content and every event stream are validated against the spec."),
  session("C15", "6/C15", "TLC checks the authorization gate, the refusal of requests outside the grants and that served requests touch only keys covered by the grants (documented relation); real sessions with minted tokens (valid grant sets, missing, garbage, forged, expired) mix authorised and unauthorised requests while an unrestricted observer reads the store back; validated by TLC."),
  session("C17", "6/C17", "The developers' debug assertions are state invariants of the core model (clean trees, never down) checked by TLC over every alphabet; offender sessions send odd requests in any order and a catalogue of undecodable lines while a witness session's round trips must keep being answered correctly (debug build; a panic of the core task is an observation the spec cannot explain)."),
